@@ -217,6 +217,10 @@ def discharge(fn, it, defs, idom, crate=None):
         return "slice length minus (a position found in that slice + 1): position < length"
     if op == "Add" and cb == 1 and (aty in ("usize",) or _is_usize_place(fn, a)):
         return "usize counter += 1 (bounded by the input length / address space)"
+    if op == "Sub" and crate is not None:
+        why = _field_order(crate, fn, a, b, it.get("block"))
+        if why:
+            return why
     if op == "Sub" and cb is not None and cb >= 0:
         lb = _lower_bound_from_guards(fn, defs, idom, it["block"], a)
         if lb is not None and lb >= cb:
@@ -229,6 +233,138 @@ def discharge(fn, it, defs, idom, crate=None):
             if w and ca + ub < (1 << w) and not (bty or "").startswith("i"):
                 return "constant %d + value <= %d fits %s" % (ca, ub, bty)
     return None
+
+
+_ORDER = {}
+
+
+def _field_of(op):
+    """(adt, field name, base local) of an operand `copy (*base).field` / `copy base.field`, else None."""
+    if op.get("c") not in ("copy", "move"):
+        return None
+    p = [e for e in op["pl"]["p"] if e != "*"]
+    if len(p) != 1 or not isinstance(p[0], dict) or "f" not in p[0] or not p[0].get("adt"):
+        return None
+    return p[0]["adt"], p[0]["n"], op["pl"]["l"]
+
+
+def _field_order(crate, fn, a, b, block=None):
+    """`x.hi - x.lo` for two private usize fields of one struct of this crate with the invariant lo <= hi:
+    every value of the struct is built with lo <= hi (constants, or both from the same operand), `hi` is only ever
+    increased (`hi = hi + n`, overflow-checked), `lo` is only ever assigned the current `hi` of the same object, and
+    no mutable reference to either field is taken."""
+    defs = common.defs_of(fn)
+
+    reads = []
+
+    def via(op):
+        f = _field_of(op)
+        if not f and op.get("c") in ("copy", "move") and not op["pl"]["p"]:
+            ds = defs.get(op["pl"]["l"], [])
+            if len(ds) == 1 and ds[0][1] != "term" and ds[0][2]["k"] == "use":
+                f = _field_of(ds[0][2]["op"])
+                reads.append((ds[0][0], ds[0][1]))
+        return f
+
+    fa, fb = via(a), via(b)
+    if reads:
+        # both fields are read in one block with nothing stored through a reference or field in between or after
+        blocks = {bi for bi, _ in reads}
+        if len(blocks) != 1 or (block is not None and blocks != {block}):
+            return None
+        bi = blocks.pop()
+        first = min(si for _, si in reads)
+        for st in fn.blocks[bi]["stmts"][first:]:
+            if st["k"] == "assign" and st["place"]["p"]:
+                return None
+    if not fa or not fb or fa[0] != fb[0] or fa[2] != fb[2] or fa[1] == fb[1]:
+        return None
+    adt, hi, lo = fa[0], fa[1], fb[1]
+    key = (crate.name, adt, hi, lo)
+    if key not in _ORDER:
+        _ORDER[key] = _prove_order(crate, adt, hi, lo)
+    if _ORDER[key]:
+        return "struct invariant %s.%s <= .%s (%s)" % (adt.rsplit("::", 1)[-1], lo, hi, _ORDER[key])
+    return None
+
+
+def _prove_order(crate, adt, hi, lo):
+    a = crate.adts.get(adt)
+    if not a or a.get("kind") != "struct":
+        return None
+    fields = a["variants"][0]["fields"]
+    names = [f["name"] for f in fields]
+    if hi not in names or lo not in names:
+        return None
+    ih, il = names.index(hi), names.index(lo)
+    if any(fields[i]["ty"] != "usize" or fields[i].get("pub") for i in (ih, il)):
+        return None
+    n_build = n_hi = n_lo = 0
+
+    def touches(pl, name):
+        return any(isinstance(e, dict) and e.get("adt") == adt and e.get("n") == name for e in pl["p"])
+
+    for g in crate.fns:
+        gd = None
+        for bi, blk in enumerate(g.blocks):
+            if blk.get("cleanup"):
+                continue
+            for si, st in enumerate(blk["stmts"]):
+                if st["k"] != "assign":
+                    continue
+                rv, pl = st["rv"], st["place"]
+                if rv["k"] == "agg" and rv.get("adt") == adt:
+                    h, l = rv["fields"][ih], rv["fields"][il]
+                    ch, cl = common.const_int(h), common.const_int(l)
+                    if not (ch is not None and cl is not None and cl <= ch):
+                        return None
+                    n_build += 1
+                if rv["k"] == "ref" and rv.get("mut") and (touches(rv["pl"], hi) or touches(rv["pl"], lo)) \
+                        and rv["pl"]["p"] and isinstance(rv["pl"]["p"][-1], dict) and rv["pl"]["p"][-1].get("n") in (hi, lo):
+                    return None
+                if rv["k"] == "raw" and (touches(rv.get("pl", {"p": []}), hi) or touches(rv.get("pl", {"p": []}), lo)):
+                    return None
+                last = pl["p"][-1] if pl["p"] else None
+                if not (isinstance(last, dict) and last.get("adt") == adt and last.get("n") in (hi, lo)):
+                    continue
+                gd = gd or common.defs_of(g)
+                base = pl["l"]
+                if last["n"] == lo:
+                    # lo = copy base.hi, in the same block (nothing in between can lower hi: hi is never lowered)
+                    src = rv.get("op") if rv["k"] == "use" else None
+                    f = _field_of(src) if src else None
+                    if not f and src and src.get("c") in ("copy", "move") and not src["pl"]["p"]:
+                        ds = gd.get(src["pl"]["l"], [])
+                        if len(ds) == 1 and ds[0][1] != "term" and ds[0][2]["k"] == "use":
+                            f = _field_of(ds[0][2]["op"])
+                    if not f or f[0] != adt or f[1] != hi or f[2] != base:
+                        return None
+                    n_lo += 1
+                else:
+                    # hi = (hi + n).0 after the overflow assert, or hi + n
+                    src = rv.get("op") if rv["k"] == "use" else None
+                    d = None
+                    if rv["k"] == "bin":
+                        d = rv
+                    elif src and src.get("c") in ("copy", "move"):
+                        sp = src["pl"]
+                        if len(sp["p"]) == 1 and isinstance(sp["p"][0], dict) and sp["p"][0].get("f") == 0:
+                            ds = gd.get(sp["l"], [])
+                            if len(ds) == 1 and ds[0][1] != "term" and ds[0][2]["k"] == "bin":
+                                d = ds[0][2]
+                    if not d or d["op"] not in ("Add", "AddWithOverflow") or d.get("aty") != "usize":
+                        return None
+                    f = _field_of(d["a"])
+                    if not f and d["a"].get("c") in ("copy", "move") and not d["a"]["pl"]["p"]:
+                        ds = gd.get(d["a"]["pl"]["l"], [])
+                        if len(ds) == 1 and ds[0][1] != "term" and ds[0][2]["k"] == "use":
+                            f = _field_of(ds[0][2]["op"])
+                    if not f or f[0] != adt or f[1] != hi or f[2] != base:
+                        return None
+                    n_hi += 1
+    if not n_build:
+        return None
+    return "%d constructions with %s <= %s, %d increments of %s, %d assignments %s = %s" % (n_build, lo, hi, n_hi, hi, n_lo, lo, hi)
 
 
 _BOUNDED_CALLS = ("<impl [T]>::len", "<impl str>::len", "Vec::<T, A>::len", "std::iter::Iterator::count",
